@@ -59,6 +59,8 @@ import (
 	"golang.org/x/tools/go/ssa"
 )
 
+var debugPanics = os.Getenv("GOSYMX_DEBUG") != ""
+
 type continuation int
 
 const (
@@ -505,6 +507,8 @@ func call(i *interpreter, caller *frame, callpos token.Pos, fn value, args []val
 		return callSSA(i, caller, callpos, fn.Fn, args, fn.Env)
 	case *ssa.Builtin:
 		return callBuiltin(caller, callpos, fn, args)
+	case hostFunc:
+		return fn(caller, args)
 	}
 	panic(fmt.Sprintf("cannot call %T", fn))
 }
@@ -630,6 +634,11 @@ func runFrame(fr *frame) {
 		}
 		if tae, ok := r.(*runtime.TypeAssertionError); ok {
 			panic(engineError{"host type assertion failed (symbolic value reached an unpatched operator): " + tae.Error() + hostStack()})
+		}
+		if debugPanics {
+			if _, ok := r.(runtime.Error); ok {
+				fmt.Fprintf(os.Stderr, "DEBUG host runtime error in %s: %v%s\n", fr.fn, r, hostStack())
+			}
 		}
 		fr.panicking = true
 		fr.panic = r
